@@ -113,14 +113,15 @@ def extended(t):
 def target_atoms():
     import pymbolic.primitives as p
     x, y, z = (p.Variable(n) for n in "xyz")
-    return [x, y, 3, p.Sum((x, 1)), p.Product((2, y)), p.Power(z, 2)]
+    # the last three share their names with the pattern variables: a candidate may meet its own name in the target
+    return [x, y, 3, p.Sum((x, 1)), p.Product((2, y)), p.Power(z, 2), p.Variable("a"), p.Variable("c"), p.Sum((p.Variable("b"), 1))]
 
 
 def bounded(tier, seed, procs):
     import pymbolic.primitives as p
     from pymbolic.mapper.unifier import UnidirectionalUnifier
     b = BoundedRun("unifier", rule="30 patterns over candidate variables a, b, c (repeated occurrences, nested sums/products, sums/products without a bare candidate operand) x targets = instances of the pattern (and instances with one extra operand in one of their sums/products) under all "
-                   "assignments of 6 atoms to its variables (thinned) + all other patterns' instances as independent targets + commuted / regrouped variants; candidate sets: "
+                   "assignments of 9 atoms to its variables (three of them named like pattern variables; thinned) + all other patterns' instances as independent targets + commuted / regrouped variants; candidate sets: "
                    "all pattern variables and every proper subset: each record binds only candidates, binds all candidates occurring in the pattern, and "
                    "Inst(pattern, record) == target modulo AC (independent normal form); targets that are injective renamings must produce >= 1 record; non-trivial = pattern with >= 2 variables",
                    bound="~24 x 80 pairs x candidate subsets", functions=["UnidirectionalUnifier.*", "UnifierBase.*", "unify_map", "UnificationRecord.unify"])
